@@ -26,8 +26,9 @@
 (*                         inside pkg/upstream                             *)
 (*   Return(c, k, via, fast)  k = ok (via udp / tcp: which reply), err,    *)
 (*                         tc (the truncated udp reply), other             *)
+(* HelloSeen, HsFailed, UdpQuery, BadQuery are informational.              *)
 (* Silent: Tick01, DialAbort, ConnClose, GoExit, UGoExit, QueryTimeout,    *)
-(* UdpTimeout, TcpRefuse.                                                  *)
+(* UdpTimeout, TcpRefuse, Retry.                                           *)
 (***************************************************************************)
 EXTENDS UpDial, IOUtils
 
@@ -63,6 +64,7 @@ Reset ==
     /\ cctx' = [c \in Calls |-> FALSE]
     /\ con' = [c \in Calls |-> 0]
     /\ answered' = [c \in Calls |-> FALSE]
+    /\ own' = [c \in Calls |-> FALSE]
     /\ ust' = [c \in Calls |-> "none"]
     /\ hist' = <<>>
 
@@ -81,10 +83,10 @@ Logged ==
     \/ /\ IsEvent("SrvClose") /\ D(Ev.s) # 0 /\ UNCHANGED smap
        /\ \/ SrvClose(D(Ev.s))
           \/ ~(dst[D(Ev.s)] \in {"handshaking", "up"} /\ sconn[D(Ev.s)] = "open") /\ UNCHANGED vars
-    \/ /\ IsEvent("Query") /\ D(Ev.s) # 0 /\ Ev.c \in Calls /\ con[Ev.c] = D(Ev.s) /\ Same
-    \/ /\ IsEvent("Answer") /\ D(Ev.s) # 0 /\ Ev.c \in Calls /\ con[Ev.c] = D(Ev.s) /\ UNCHANGED smap
-       /\ \/ Answer(Ev.c)
-          \/ ~(Waiting(Ev.c) /\ dst[D(Ev.s)] = "up" /\ sconn[D(Ev.s)] = "open") /\ UNCHANGED vars   \* nobody listens any more
+    \/ /\ IsEvent("Query") /\ D(Ev.s) # 0 /\ Ev.c \in Calls /\ (con[Ev.c] = D(Ev.s) \/ cpc[Ev.c] = "done") /\ Same
+    \/ /\ IsEvent("Answer") /\ D(Ev.s) # 0 /\ Ev.c \in Calls /\ UNCHANGED smap
+       /\ \/ con[Ev.c] = D(Ev.s) /\ Answer(Ev.c)
+          \/ ~(Waiting(Ev.c) /\ con[Ev.c] = D(Ev.s) /\ dst[D(Ev.s)] = "up" /\ sconn[D(Ev.s)] = "open") /\ UNCHANGED vars   \* nobody listens any more
     \/ /\ IsEvent("UdpAnswer") /\ Ev.c \in Calls /\ (Flag("early") => now = 0) /\ UNCHANGED smap
        /\ \/ UdpAnswer(Ev.c, Ev.tc)
           \/ ~(Waiting(Ev.c) /\ ust[Ev.c] = "sent") /\ UNCHANGED vars
@@ -98,6 +100,7 @@ Logged ==
     \/ /\ IsEvent("StillOpen") /\ D(Ev.s) # 0 /\ sconn[D(Ev.s)] = "open" /\ Same
     \/ /\ IsEvent("Pending") /\ Ev.c \in Calls /\ Waiting(Ev.c) /\ Same
     \/ /\ IsEvent("Goroutines") /\ (Ev.n > 0 => (ugo \/ \E d \in Dials : dgo[d])) /\ Same
+    \/ /\ (IsEvent("HelloSeen") \/ IsEvent("HsFailed") \/ IsEvent("UdpQuery") \/ IsEvent("BadQuery")) /\ Same   \* informational
     \/ /\ IsEvent("Return") /\ Ev.c \in Calls /\ UNCHANGED smap
        /\ \/ /\ Ev.k = "ok" /\ RetOk(Ev.c)
              /\ Ev.via = (IF ust[Ev.c] = "ok" THEN "udp" ELSE "tcp")
@@ -110,7 +113,7 @@ Silent ==
     /\ UNCHANGED <<l, smap>>
     /\ \/ Tick01 \/ UGoExit
        \/ \E d \in Dials : DialAbort(d) \/ ConnClose(d) \/ GoExit(d) \/ QueryTimeout(d) \/ TcpRefuse(d)
-       \/ \E c \in Calls : UdpTimeout(c)
+       \/ \E c \in Calls : UdpTimeout(c) \/ Retry(c)
 
 TraceNext == (Reset \/ Logged \/ Silent) /\ UpInv'
 
